@@ -162,7 +162,6 @@ func c11AddRealChannel(e *c11Env, nt *notification.Notifier, r *c11Rec) error {
 		if _, err := e.s.Services.Webhooks.CreateWebhook("Bearer", "", "c11token", url); err != nil {
 			return fmt.Errorf("CreateWebhook: %w", err)
 		}
-		nt.AddChannel(e.s.Services.Webhooks)
 		r.closer = func() {
 			_ = e.s.Services.Webhooks.DeleteWebhook(url)
 			e.s.Cfg.Webhook.MaxTries = oldTries
@@ -177,14 +176,30 @@ func c11AddRealChannel(e *c11Env, nt *notification.Notifier, r *c11Rec) error {
 		x.mu.Lock()
 		x.curC = r
 		x.mu.Unlock()
-		nt.AddChannel(notification.NewWebsocketChannel(e.s.Log, c11NodePub{r, x.ws.Publisher()}, e.s.Cfg.Websocket))
 		r.closer = func() {
 			x.mu.Lock()
 			x.curC = nil
 			x.mu.Unlock()
 		}
 	}
+	c11Attach(e, nt, r)
 	return nil
+}
+
+// c11Attach registers the channel of a recorder on a Notifier the way cmd/main.go does at start-up; used when a
+// case begins and again after every restart (the Notifier and the services are per process, the webhook is in
+// the database).
+func c11Attach(e *c11Env, nt *notification.Notifier, r *c11Rec) {
+	switch r.spec.Kind {
+	case "R":
+		nt.AddChannel(c11Raw{r})
+	case "W":
+		nt.AddChannel(notification.NewWebsocketChannel(e.s.Log, c11Pub{r}, e.s.Cfg.Websocket))
+	case "H":
+		nt.AddChannel(e.s.Services.Webhooks)
+	case "C":
+		nt.AddChannel(notification.NewWebsocketChannel(e.s.Log, c11NodePub{r, c11real.ws.Publisher()}, e.s.Cfg.Websocket))
+	}
 }
 
 func c11Thorough(e *c11Env, do func(*c11Case, string) error) error {
@@ -208,9 +223,22 @@ func c11Thorough(e *c11Env, do func(*c11Case, string) error) error {
 			return err
 		}
 	}
+	// restart with the real centrifuge node + client as the second channel
+	for i, l := range []string{
+		"c=H:ok,C:ok/n=9101|g=1,486604799,1,1,1231006505,2083236893;f=;X;L2,1,8,545259519",
+		"c=H:ok,C:ok,R:ok/n=9102|g=1,486604799,1,1,1231006505,2083236893;f=;L2,1,5,545259519;X;L7,6,5,545259519;X;L12,11,3,541065215",
+	} {
+		k, err := c11Parse(l)
+		if err != nil {
+			return fmt.Errorf("restart case %d: %w", i, err)
+		}
+		if err := do(k, "thorough-restart"); err != nil {
+			return err
+		}
+	}
 	n := 160
 	for i := 0; i < n; i++ {
-		o := GenOpts{N: 2 + c.Rng.Intn(14), PUnknown: 0.08, PLate: 0.1, PDup: 0.12, PForbidden: 0.2, Deep: i%2 == 0, Positive: true}
+		o := GenOpts{N: 2 + c.Rng.Intn(14), PUnknown: 0.08, PLate: 0.1, PDup: 0.12, PForbidden: 0.2, Deep: i%2 == 0, Positive: true, ShareMerkle: i%3 == 1}
 		h := GenHistory(c.Rng, o)
 		faults := map[int]c11Fault{}
 		if i%3 != 0 {
